@@ -351,7 +351,7 @@ namespace bluetoe
                             used_buffer_  = 0;
                             in_flash_mode = true;
 
-                            if ( !MemRegions::acceptable( start_address, start_address ) )
+                            if ( !page_acceptable( start_address ) )
                                 return request_error( bluetoe::error_codes::invalid_offset );
 
                             for ( auto& buffer : buffers_ )
@@ -595,8 +595,24 @@ namespace bluetoe
                     return result;
                 }
 
-                bool find_next_buffer( std::size_t start_address )
+                /*
+                 * Flashing is done in whole pages, so the whole page that contains address has to be within the
+                 * white listed memory regions (and must not wrap around the end of the address space).
+                 */
+                static bool page_acceptable( std::uintptr_t address )
                 {
+                    const std::uintptr_t page_start = address - address % PageSize;
+                    const std::uintptr_t page_end   = page_start + PageSize;
+
+                    return page_end > page_start && MemRegions::acceptable( page_start, page_end );
+                }
+
+                bool find_next_buffer( std::uintptr_t start_address )
+                {
+                    // data must not run out of the white listed memory regions
+                    if ( !page_acceptable( start_address ) )
+                        return false;
+
                     const auto next = ( next_buffer_ + 1 ) % number_of_concurrent_flashs;
 
                     if ( buffers_[ next ].empty() )
